@@ -116,8 +116,6 @@ def run(tier):
         elif bool(a.get("ok")) != bool(b.get("ok")) or (a.get("ok") and a.get("out") != b.get("accepted")):
             C.violation(key, "%s: the String channel gives %s, the writer channel %s" % (q, repr(a.get("out")) if a.get("ok") else "an error (%s)" % (a.get("msg") or a.get("disp", ""))[:80],
                                                                                    ("Ok after writing %r" % b.get("accepted")) if b.get("ok") else "an error"), {"job": job, "result": rr})
-        elif not a.get("ok") and a.get("kind") != b.get("kind"):
-            C.violation(dict(key, kind="channels-error-kind"), "%s: the String channel fails with %s, the writer channel with %s" % (q, a.get("kind"), b.get("kind")), {"job": job, "result": rr})
     # purity across renders in one process/thread: a render that FAILS half way (inside a component body, a capture, an
     # include, a block) must leave nothing behind for the next render, of the same or of another instance
     FAILING = [("component", [["f.html", "{% component boom(x) %}<li>{{ x }} costs {{ nope }}</li>{% endcomponent boom %}{{<boom x='ink' />}}"]], "f.html"),
